@@ -830,18 +830,54 @@ func (e *Env) copyOp(fr *Frame, dst *Slice, srcv Value, rt types.Type, st *State
 // range over maps: a loop over a havocked visited set (DESIGN 2.3)
 
 type rangeIter struct {
-	m *MapV
+	m    *MapV
+	vis  string // heap name of the visited set of this iteration: (Array <key> Bool)
+	dom0 string // the map's key set when the iteration started
+	ks   string
 }
 
 func (r *rangeIter) vtype() types.Type { return nil }
 
+// rangeOrdinal numbers the range-over-map instructions of a function in program order.
+func rangeOrdinal(x *ssa.Range) int {
+	n := 0
+	for _, b := range x.Parent().Blocks {
+		for _, ins := range b.Instrs {
+			if r, ok := ins.(*ssa.Range); ok {
+				if r == x {
+					return n
+				}
+				if _, isMap := r.X.Type().Underlying().(*types.Map); isMap {
+					n++
+				}
+			}
+		}
+	}
+	return n
+}
+
+// Map iteration: every step yields a key that is present and has not been visited; when the
+// iteration ends, every key that was present at the start and still is has been visited (Go
+// spec: entries removed are not produced, entries added may or may not be). The visited set is
+// ghost state `V!<function>!<n>` (n-th range over a map in the function, program order),
+// readable in invariants as visited(n, k).
 func (e *Env) rangeInit(fr *Frame, x *ssa.Range, st *State) Value {
 	v := e.get(fr, x.X, st)
 	m, ok := v.(*MapV)
 	if !ok {
 		unsupp("range over %T", v)
 	}
-	return &rangeIter{m: m}
+	mt := m.Typ.Underlying().(*types.Map)
+	dn, _, ks := e.mapNames(mt)
+	name := fmt.Sprintf("V!%s!%d", sanitize(fr.fn.Name()), rangeOrdinal(x))
+	srt := "(Array " + ks + " Bool)"
+	e.heapSorts[name] = srt
+	e.cellArray[name] = true
+	st.heap[name] = constArray(srt, tFalse)
+	e.declared[name] = true
+	dom := e.heapGet(st, dn, heapSort("M", sBool, ks))
+	dom0 := e.maybeNameForce(mkSelect(dom, m.Ref), srt, "dom0")
+	return &rangeIter{m: m, vis: name, dom0: dom0, ks: ks}
 }
 
 func (e *Env) rangeNext(fr *Frame, x *ssa.Next, st *State) Value {
@@ -850,14 +886,27 @@ func (e *Env) rangeNext(fr *Frame, x *ssa.Next, st *State) Value {
 		unsupp("next on non-map iterator")
 	}
 	mt := it.m.Typ.Underlying().(*types.Map)
-	// iteration order is arbitrary: ok and the key are havocked; the key is in the domain
+	srt := "(Array " + it.ks + " Bool)"
 	okv := e.fresh("rangeok", sBool)
 	key := e.freshValue(mt.Key(), "rangekey")
 	val, in := e.mapLookup(st, it.m, key)
-	e.assume(mkImp(okv, in))
+	k := e.mapKeyTerm(mt, key)
+	vis := st.heap[it.vis]
+	if vis == "" {
+		vis = constArray(srt, tFalse)
+	}
+	e.assume(mkImp(okv, mkAnd(in, mkNot(mkSelect(vis, k)))))
 	// if the map is empty the iteration ends immediately
 	e.assume(mkImp(mkEq(e.mapLen(st, it.m), "0"), mkNot(okv)))
-	e.trust("map iteration: each step yields an arbitrary present key (visited-set bookkeeping is left to the loop invariant)")
+	// at the end everything that was present at the start and still is has been visited
+	dn, _, _ := e.mapNames(mt)
+	dom := e.heapGet(st, dn, heapSort("M", sBool, it.ks))
+	kq := "|$k|"
+	e.assume(mkImp(mkAnd(st.pc, mkNot(okv)), fmt.Sprintf("(forall ((%s %s)) (! (=> (and (select %s %s) (select (select %s %s) %s)) (select %s %s)) :pattern ((select %s %s))))",
+		kq, it.ks, it.dom0, kq, dom, it.m.Ref, kq, vis, kq, vis, kq)))
+	st.heap[it.vis] = e.maybeNameForce(mkIte(okv, mkStore(vis, k, tTrue), vis), srt, "vis")
+	e.noteWrite(it.vis, "0")
+	e.trust("map iteration: arbitrary order; each present, not yet visited key once; complete over the keys present from start to end")
 	tup := x.Type().(*types.Tuple)
 	kv := key
 	vv := val
